@@ -108,6 +108,7 @@ func runC06(e *Env) {
 	cfg.CloseHow = e.P(2)
 	cfg.Stalls = true
 	cfg.ExecDelay = e.P(3) == 2
+	cfg.BigSizes = e.P(3) == 2 // payload sizes up to 70001 bytes: batches beyond the largest pool class
 	h := e.RunWriters(cfg)
 	segs := h.OracleWireIntegrity(e, false)
 	h.OracleGracefulClose(e, segs)
